@@ -16,6 +16,10 @@ import (
 
 func init() {
 	register(&PropertyCheck{ID: "C10", Level: "other", Run: checkC10, Canaries: []Canary{
+		{Name: "reason-codes-moved-by-bulk-copy", Silent: true, Edits: []Edit{{"suback.go", "func (p *SubAck) payload(b []byte, i int) int {\n\tn := i\n\tfor j, _ := range p.reasonCodes {\n\t\ti += wuint8(p.reasonCodes[j]).fill(b, i)\n\t}\n\treturn i - n\n}\n\nfunc (p *SubAck) UnmarshalBinary(data []byte) error {\n\tb := &buffer{data: data}\n\tb.get(&p.packetID)\n\tb.getAny(p.propertyMap(), p.appendUserProperty)\n\n\tp.reasonCodes = make([]uint8, len(data)-b.i)\n\n\tfor i, _ := range p.reasonCodes {\n\t\tvar v wuint8\n\t\tb.get(&v)\n\t\tp.reasonCodes[i] = uint8(v)\n\t}\n\treturn b.err", "// payload writes the reason codes, one byte each.\nfunc (p *SubAck) payload(b []byte, i int) int {\n\tn := len(p.reasonCodes)\n\tif len(b) >= i+n {\n\t\tcopy(b[i:], p.reasonCodes)\n\t}\n\treturn n\n}\n\nfunc (p *SubAck) UnmarshalBinary(data []byte) error {\n\tb := &buffer{data: data}\n\tb.get(&p.packetID)\n\tb.getAny(p.propertyMap(), p.appendUserProperty)\n\n\t// the rest of the data is the list of reason codes, one byte each\n\trest := data[b.i:]\n\tp.reasonCodes = make([]uint8, len(rest))\n\tif b.err != nil {\n\t\treturn b.err\n\t}\n\tb.i += copy(p.reasonCodes, rest)\n\treturn nil"}, {"unsuback.go", "func (p *UnsubAck) payload(b []byte, i int) int {\n\tn := i\n\tfor j, _ := range p.reasonCodes {\n\t\ti += wuint8(p.reasonCodes[j]).fill(b, i)\n\t}\n\treturn i - n\n}\n\nfunc (p *UnsubAck) UnmarshalBinary(data []byte) error {\n\tb := &buffer{data: data}\n\tb.get(&p.packetID)\n\tb.getAny(p.propertyMap(), p.appendUserProperty)\n\n\tp.reasonCodes = make([]uint8, len(data)-b.i)\n\n\tfor i, _ := range p.reasonCodes {\n\t\tvar v wuint8\n\t\tb.get(&v)\n\t\tp.reasonCodes[i] = uint8(v)\n\t}\n\treturn b.err", "// payload writes the reason codes, one byte each.\nfunc (p *UnsubAck) payload(b []byte, i int) int {\n\tn := len(p.reasonCodes)\n\tif len(b) >= i+n {\n\t\tcopy(b[i:], p.reasonCodes)\n\t}\n\treturn n\n}\n\nfunc (p *UnsubAck) UnmarshalBinary(data []byte) error {\n\tb := &buffer{data: data}\n\tb.get(&p.packetID)\n\tb.getAny(p.propertyMap(), p.appendUserProperty)\n\n\t// the rest of the data is the list of reason codes, one byte each\n\trest := data[b.i:]\n\tp.reasonCodes = make([]uint8, len(rest))\n\tif b.err != nil {\n\t\treturn b.err\n\t}\n\tb.i += copy(p.reasonCodes, rest)\n\treturn nil"}}},
+		{Name: "bulk-writer-skips-the-first-code", Rule: "R10.7", Where: "SubAck", Edits: []Edit{{"suback.go", "func (p *SubAck) payload(b []byte, i int) int {\n\tn := i\n\tfor j, _ := range p.reasonCodes {\n\t\ti += wuint8(p.reasonCodes[j]).fill(b, i)\n\t}\n\treturn i - n\n}\n\nfunc (p *SubAck) UnmarshalBinary(data []byte) error {\n\tb := &buffer{data: data}\n\tb.get(&p.packetID)\n\tb.getAny(p.propertyMap(), p.appendUserProperty)\n\n\tp.reasonCodes = make([]uint8, len(data)-b.i)\n\n\tfor i, _ := range p.reasonCodes {\n\t\tvar v wuint8\n\t\tb.get(&v)\n\t\tp.reasonCodes[i] = uint8(v)\n\t}\n\treturn b.err", "// payload writes the reason codes, one byte each.\nfunc (p *SubAck) payload(b []byte, i int) int {\n\tn := len(p.reasonCodes)\n\tif len(b) >= i+n {\n\t\tcopy(b[i:], p.reasonCodes[1:])\n\t}\n\treturn n\n}\n\nfunc (p *SubAck) UnmarshalBinary(data []byte) error {\n\tb := &buffer{data: data}\n\tb.get(&p.packetID)\n\tb.getAny(p.propertyMap(), p.appendUserProperty)\n\n\t// the rest of the data is the list of reason codes, one byte each\n\trest := data[b.i:]\n\tp.reasonCodes = make([]uint8, len(rest))\n\tif b.err != nil {\n\t\treturn b.err\n\t}\n\tb.i += copy(p.reasonCodes, rest)\n\treturn nil"}, {"unsuback.go", "func (p *UnsubAck) payload(b []byte, i int) int {\n\tn := i\n\tfor j, _ := range p.reasonCodes {\n\t\ti += wuint8(p.reasonCodes[j]).fill(b, i)\n\t}\n\treturn i - n\n}\n\nfunc (p *UnsubAck) UnmarshalBinary(data []byte) error {\n\tb := &buffer{data: data}\n\tb.get(&p.packetID)\n\tb.getAny(p.propertyMap(), p.appendUserProperty)\n\n\tp.reasonCodes = make([]uint8, len(data)-b.i)\n\n\tfor i, _ := range p.reasonCodes {\n\t\tvar v wuint8\n\t\tb.get(&v)\n\t\tp.reasonCodes[i] = uint8(v)\n\t}\n\treturn b.err", "// payload writes the reason codes, one byte each.\nfunc (p *UnsubAck) payload(b []byte, i int) int {\n\tn := len(p.reasonCodes)\n\tif len(b) >= i+n {\n\t\tcopy(b[i:], p.reasonCodes)\n\t}\n\treturn n\n}\n\nfunc (p *UnsubAck) UnmarshalBinary(data []byte) error {\n\tb := &buffer{data: data}\n\tb.get(&p.packetID)\n\tb.getAny(p.propertyMap(), p.appendUserProperty)\n\n\t// the rest of the data is the list of reason codes, one byte each\n\trest := data[b.i:]\n\tp.reasonCodes = make([]uint8, len(rest))\n\tif b.err != nil {\n\t\treturn b.err\n\t}\n\tb.i += copy(p.reasonCodes, rest)\n\treturn nil"}}},
+		{Name: "fixed-header-written-by-a-helper-struct", Silent: true, Edits: []Edit{{"auth.go", "\ti += p.fixed.fill(b, i)      // firstByte header\n\ti += remainingLen.fill(b, i) // remaining length", "\ti += fixedHeader{p.fixed, remainingLen}.fill(b, i)"}, {"disconnect.go", "\ti += p.fixed.fill(b, i)      // firstByte header\n\ti += remainingLen.fill(b, i) // remaining length", "\ti += fixedHeader{p.fixed, remainingLen}.fill(b, i)"}, {"packet.go", "\treturn n + m, err\n}\n", "\treturn n + m, err\n}\n\n// fill writes the first byte and the remaining length at position\n// i. Returns the number of bytes that make up the fixed header.\nfunc (f fixedHeader) fill(b []byte, i int) int {\n\tn := i\n\ti += f.fixed.fill(b, i)        // firstByte header\n\ti += f.remainingLen.fill(b, i) // remaining length\n\treturn i - n\n}\n"}, {"pingreq.go", "\ti += p.fixed.fill(b, i)  // firstByte header\n\ti += vbint(0).fill(b, i) // remaining length none", "\ti += fixedHeader{p.fixed, 0}.fill(b, i) // remaining length none"}, {"pingresp.go", "\ti += p.fixed.fill(b, i)  // firstByte header\n\ti += vbint(0).fill(b, i) // remaining length none", "\ti += fixedHeader{p.fixed, 0}.fill(b, i) // remaining length none"}, {"puback.go", "\ti += p.fixed.fill(b, i)      // firstByte header\n\ti += remainingLen.fill(b, i) // remaining length", "\ti += fixedHeader{p.fixed, remainingLen}.fill(b, i)"}, {"pubcomp.go", "\ti += p.fixed.fill(b, i)      // firstByte header\n\ti += remainingLen.fill(b, i) // remaining length", "\ti += fixedHeader{p.fixed, remainingLen}.fill(b, i)"}, {"pubrec.go", "\ti += p.fixed.fill(b, i)      // firstByte header\n\ti += remainingLen.fill(b, i) // remaining length", "\ti += fixedHeader{p.fixed, remainingLen}.fill(b, i)"}, {"pubrel.go", "\ti += p.fixed.fill(b, i)      // firstByte header\n\ti += remainingLen.fill(b, i) // remaining length", "\ti += fixedHeader{p.fixed, remainingLen}.fill(b, i)"}, {"suback.go", "\ti += p.fixed.fill(b, i)      // firstByte header\n\ti += remainingLen.fill(b, i) // remaining length", "\ti += fixedHeader{p.fixed, remainingLen}.fill(b, i)"}, {"subscribe.go", "\ti += p.fixed.fill(b, i)      // firstByte header\n\ti += remainingLen.fill(b, i) // remaining length", "\ti += fixedHeader{p.fixed, remainingLen}.fill(b, i)"}, {"unsuback.go", "\ti += p.fixed.fill(b, i)      // firstByte header\n\ti += remainingLen.fill(b, i) // remaining length", "\ti += fixedHeader{p.fixed, remainingLen}.fill(b, i)"}, {"unsubscribe.go", "\ti += p.fixed.fill(b, i)      // firstByte header\n\ti += remainingLen.fill(b, i) // remaining length", "\ti += fixedHeader{p.fixed, remainingLen}.fill(b, i)"}}},
+		{Name: "header-helper-given-a-length-one-too-large", Rule: "R10.7", Where: "Auth", Edits: []Edit{{"auth.go", "\ti += p.fixed.fill(b, i)      // firstByte header\n\ti += remainingLen.fill(b, i) // remaining length", "\ti += fixedHeader{p.fixed, remainingLen + 1}.fill(b, i)"}, {"disconnect.go", "\ti += p.fixed.fill(b, i)      // firstByte header\n\ti += remainingLen.fill(b, i) // remaining length", "\ti += fixedHeader{p.fixed, remainingLen}.fill(b, i)"}, {"packet.go", "\treturn n + m, err\n}\n", "\treturn n + m, err\n}\n\n// fill writes the first byte and the remaining length at position\n// i. Returns the number of bytes that make up the fixed header.\nfunc (f fixedHeader) fill(b []byte, i int) int {\n\tn := i\n\ti += f.fixed.fill(b, i)        // firstByte header\n\ti += f.remainingLen.fill(b, i) // remaining length\n\treturn i - n\n}\n"}, {"pingreq.go", "\ti += p.fixed.fill(b, i)  // firstByte header\n\ti += vbint(0).fill(b, i) // remaining length none", "\ti += fixedHeader{p.fixed, 0}.fill(b, i) // remaining length none"}, {"pingresp.go", "\ti += p.fixed.fill(b, i)  // firstByte header\n\ti += vbint(0).fill(b, i) // remaining length none", "\ti += fixedHeader{p.fixed, 0}.fill(b, i) // remaining length none"}, {"puback.go", "\ti += p.fixed.fill(b, i)      // firstByte header\n\ti += remainingLen.fill(b, i) // remaining length", "\ti += fixedHeader{p.fixed, remainingLen}.fill(b, i)"}, {"pubcomp.go", "\ti += p.fixed.fill(b, i)      // firstByte header\n\ti += remainingLen.fill(b, i) // remaining length", "\ti += fixedHeader{p.fixed, remainingLen}.fill(b, i)"}, {"pubrec.go", "\ti += p.fixed.fill(b, i)      // firstByte header\n\ti += remainingLen.fill(b, i) // remaining length", "\ti += fixedHeader{p.fixed, remainingLen}.fill(b, i)"}, {"pubrel.go", "\ti += p.fixed.fill(b, i)      // firstByte header\n\ti += remainingLen.fill(b, i) // remaining length", "\ti += fixedHeader{p.fixed, remainingLen}.fill(b, i)"}, {"suback.go", "\ti += p.fixed.fill(b, i)      // firstByte header\n\ti += remainingLen.fill(b, i) // remaining length", "\ti += fixedHeader{p.fixed, remainingLen}.fill(b, i)"}, {"subscribe.go", "\ti += p.fixed.fill(b, i)      // firstByte header\n\ti += remainingLen.fill(b, i) // remaining length", "\ti += fixedHeader{p.fixed, remainingLen}.fill(b, i)"}, {"unsuback.go", "\ti += p.fixed.fill(b, i)      // firstByte header\n\ti += remainingLen.fill(b, i) // remaining length", "\ti += fixedHeader{p.fixed, remainingLen}.fill(b, i)"}, {"unsubscribe.go", "\ti += p.fixed.fill(b, i)      // firstByte header\n\ti += remainingLen.fill(b, i) // remaining length", "\ti += fixedHeader{p.fixed, remainingLen}.fill(b, i)"}}},
 		{Name: "returns-len-instead-of-n", Rule: "R10.1", Where: "(*PingReq).WriteTo", Edits: []Edit{{"pingreq.go", "\tn, err := w.Write(b)\n\treturn int64(n), err", "\t_, err := w.Write(b)\n\treturn int64(len(b)), err"}}},
 		{Name: "header-and-body-written-separately", Rule: "R10.1", Where: "(*PingResp).WriteTo", Edits: []Edit{{"pingresp.go", "\tn, err := w.Write(b)\n\treturn int64(n), err", "\tn, err := w.Write(b[:1])\n\tif err != nil {\n\t\treturn int64(n), err\n\t}\n\tm, err := w.Write(b[1:])\n\treturn int64(n + m), err"}}},
 		{Name: "size-method-adds-the-parts", Silent: true, Edits: []Edit{{"connack.go", "\tb := make([]byte, p.fill(_LEN, 0))\n\tp.fill(b, 0)\n\tn, err := w.Write(b)\n\treturn int64(n), err\n}\n\nfunc (p *ConnAck) fill(", "\tb := make([]byte, p.width())\n\tp.fill(b, 0)\n\tn, err := w.Write(b)\n\treturn int64(n), err\n}\n\nfunc (p *ConnAck) fill("}, {"connack.go", "func (p *ConnAck) width() int {\n\treturn p.fill(_LEN, 0)\n}", "func (p *ConnAck) width() int {\n\trem := vbint(p.variableHeader(_LEN, 0))\n\treturn p.fixed.width() + rem.width() + int(rem)\n}"}}},
@@ -169,7 +173,7 @@ func checkC10(p *Prog, c *Check) {
 		switch {
 		case f.ok:
 			c.OK("R10.8", f.cons, f.pos, f.how)
-		case f.unk && f.top != nil && evaluatedOK(c, "R10.7", f.top):
+		case f.unk && f.top != nil && (evaluatedOK(c, "R10.7", f.top) || allEvaluatedOK(c, "R10.7", f.tops)):
 			// the structural argument does not reach this spelling of the remaining length (a helper with several
 			// paths, say); the equation itself was evaluated on every abstract packet state of the type (R10.7)
 			c.OK("R10.8", f.cons, f.pos, "not decided structurally ("+f.how+"); backed by R10.7: the remaining length equals the bytes that follow on every abstract packet state of the type")
@@ -1066,7 +1070,53 @@ func checkStringSize(p *Prog, c *Check, fn *ssa.Function, fill *ssa.Function) {
 		}
 	}
 	if len(prints) == 0 {
-		c.Unk("R10.4", cons, p.Pos(fn.Pos()), "no \"N bytes\" print found (neither a constant-format fmt call nor a concatenation with strconv, here or in the mq functions it calls): that String states the frame's size is not decided")
+		// the size is rendered in a way not recognised above (a strings.Builder, a small type with its own String):
+		// decided by what sizes the rendering has at hand at all — every call of an encoder or of a packet's size
+		// method in String and in the (non-encoder) mq functions it calls must be the dry run of the receiver's own
+		// encoder, and there must be one
+		nsz, bad := 0, ""
+		seen := map[*ssa.Function]bool{}
+		var visit func(g *ssa.Function, depth int, top bool)
+		visit = func(g *ssa.Function, depth int, top bool) {
+			if g == nil || g.Blocks == nil || seen[g] || depth > 3 {
+				return
+			}
+			seen[g] = true
+			for _, b := range g.Blocks {
+				for _, ins := range b.Instrs {
+					call, ok := ins.(*ssa.Call)
+					if !ok {
+						continue
+					}
+					sc := call.Call.StaticCallee()
+					if sc == nil || !p.inMQ(sc) || sc.Blocks == nil {
+						continue
+					}
+					if f, recv, ok := p.dryRunCall(call, 0); ok {
+						nsz++
+						if f != fill || (top && !isRecvOf(p, fn, recv)) {
+							bad = "a size computed at " + posOf(p, call) + " (" + describeVal(call) + ") is not the dry run of the receiver's own encoder"
+						}
+						continue
+					}
+					if isFillFamily(sc) {
+						nsz++
+						bad = "an encoder is called at " + posOf(p, call) + " other than as the dry run of the whole frame: " + describeVal(call)
+						continue
+					}
+					visit(sc, depth+1, false)
+				}
+			}
+		}
+		visit(fn, 0, true)
+		switch {
+		case bad != "":
+			c.Bad("R10.4", cons, p.Pos(fn.Pos()), "the size String can state is not the frame's: "+bad)
+		case nsz == 0:
+			c.Unk("R10.4", cons, p.Pos(fn.Pos()), "no \"N bytes\" print found and no size is computed from the encoder here or in the mq functions it calls: that String states the frame's size is not decided")
+		default:
+			c.OK("R10.4", cons, p.Pos(fn.Pos()), fmt.Sprintf("the rendering is not a recognised \"N bytes\" print; the only size(s) computed for it (%d call(s)) are dry runs of the receiver's own encoder", nsz))
+		}
 	}
 }
 
@@ -1234,10 +1284,42 @@ func writesBufferDirectly(fn *ssa.Function, buf *ssa.Parameter) bool {
 						return true
 					}
 				}
+				// a result-less helper that is handed the buffer and stores into it (`putByte(data, i, b)`)
+				if sc := x.Call.StaticCallee(); sc != nil && isBufHelper(sc) {
+					for k, a := range x.Call.Args {
+						if a == ssa.Value(buf) && k < len(sc.Params) && writesBufferDirectly(sc, sc.Params[k]) {
+							return true
+						}
+					}
+				}
 			}
 		}
 	}
 	return false
+}
+
+// isBufHelper: an unexported function without result that takes a byte slice immediately followed by an int (an
+// offset into it) — a helper through which encoders write single bytes.  The offset is non-negative by contract
+// (K1), checked at its call sites like that of the fill family.
+func isBufHelper(fn *ssa.Function) bool {
+	if fn == nil || fn.Blocks == nil || fn.Signature.Results().Len() != 0 || !closedCallSites(fn) || fn.Signature.Recv() != nil {
+		return false
+	}
+	return bufHelperIndex(fn) >= 0
+}
+
+func bufHelperIndex(fn *ssa.Function) int {
+	ps := fn.Signature.Params()
+	for k := 0; k+1 < ps.Len(); k++ {
+		if !isByteSlice(ps.At(k).Type()) {
+			continue
+		}
+		if b, ok := ps.At(k + 1).Type().Underlying().(*types.Basic); ok && b.Kind() == types.Int {
+			return k
+		}
+		return -1
+	}
+	return -1
 }
 
 // extentRule: the pieces a primitive writes are contiguous from the entry
@@ -1334,6 +1416,53 @@ func extentRule(p *Prog, pr *Prover, fn *ssa.Function, buf, off *ssa.Parameter, 
 	return true, fmt.Sprintf("writes %d contiguous piece(s) from the entry offset totalling %s bytes, which is what it returns", len(uniq), total)
 }
 
+// byteStoreSites: where fn stores one byte into buf — `buf[i] = b`, or a call of a result-less helper that does
+// exactly that with the buffer and the index it is handed (`putByte(buf, i, b)`).
+type byteStoreSite struct {
+	block *ssa.BasicBlock
+	index ssa.Value
+}
+
+func byteStoreSites(fn *ssa.Function, buf *ssa.Parameter) []byteStoreSite {
+	var out []byteStoreSite
+	for _, b := range fn.Blocks {
+		for _, ins := range b.Instrs {
+			switch x := ins.(type) {
+			case *ssa.Store:
+				if ia, ok := x.Addr.(*ssa.IndexAddr); ok && ia.X == ssa.Value(buf) {
+					out = append(out, byteStoreSite{b, ia.Index})
+				}
+			case *ssa.Call:
+				sc := x.Call.StaticCallee()
+				if sc == nil || !isBufHelper(sc) {
+					continue
+				}
+				k := bufHelperIndex(sc)
+				if k+1 >= len(x.Call.Args) || x.Call.Args[k] != ssa.Value(buf) {
+					continue
+				}
+				// the helper stores exactly once, at its own (buffer, offset) pair
+				n, okH := 0, true
+				for _, hb := range sc.Blocks {
+					for _, hi := range hb.Instrs {
+						if st, ok := hi.(*ssa.Store); ok {
+							ia, isIA := st.Addr.(*ssa.IndexAddr)
+							if !isIA || ia.X != ssa.Value(sc.Params[k]) || ia.Index != ssa.Value(sc.Params[k+1]) {
+								okH = false
+							}
+							n++
+						}
+					}
+				}
+				if okH && n == 1 {
+					out = append(out, byteStoreSite{b, x.Call.Args[k+1]})
+				}
+			}
+		}
+	}
+	return out
+}
+
 // bytePerIteration: a loop primitive that stores one byte at offset φ and
 // advances φ by one on every cycle, returning the number of cycles.
 func bytePerIteration(p *Prog, pr *Prover, fn *ssa.Function, buf, off *ssa.Parameter, ret *ssa.Return) (bool, string) {
@@ -1344,18 +1473,11 @@ func bytePerIteration(p *Prog, pr *Prover, fn *ssa.Function, buf, off *ssa.Param
 	l := loops[0]
 	var phi *ssa.Phi
 	nstores := 0
-	for b := range l.Blocks {
-		for _, ins := range b.Instrs {
-			st, ok := ins.(*ssa.Store)
-			if !ok {
-				continue
-			}
-			ia, ok := st.Addr.(*ssa.IndexAddr)
-			if !ok || ia.X != ssa.Value(buf) {
-				continue
-			}
+	sites := byteStoreSites(fn, buf)
+	for _, st := range sites {
+		if l.Blocks[st.block] {
 			nstores++
-			phi, _ = ia.Index.(*ssa.Phi)
+			phi, _ = st.index.(*ssa.Phi)
 		}
 	}
 	if nstores != 1 || phi == nil || !l.Blocks[phi.Block()] {
@@ -1402,19 +1524,13 @@ func bytePerIteration(p *Prog, pr *Prover, fn *ssa.Function, buf, off *ssa.Param
 					}
 				}
 				ntail := 0
-				for _, b := range fn.Blocks {
-					if l.Blocks[b] {
+				for _, st := range sites {
+					if l.Blocks[st.block] {
 						continue
 					}
-					for _, ins := range b.Instrs {
-						if st, isSt := ins.(*ssa.Store); isSt {
-							if ia, isIA := st.Addr.(*ssa.IndexAddr); isIA && ia.X == ssa.Value(buf) {
-								ntail++
-								if ia.Index != ssa.Value(phi) {
-									ntail += 100
-								}
-							}
-						}
+					ntail++
+					if st.index != ssa.Value(phi) {
+						ntail += 100
 					}
 				}
 				if fromHeader && ntail == 1 {
@@ -1432,7 +1548,8 @@ func bytePerIteration(p *Prog, pr *Prover, fn *ssa.Function, buf, off *ssa.Param
 type guardFinding struct {
 	cons, pos, how string
 	ok, unk        bool
-	top            *ssa.Function // an undecided finding about the remaining length of this packet encoder
+	top            *ssa.Function   // an undecided finding about the remaining length of this packet encoder
+	tops           []*ssa.Function // … or of the helper these packet encoders hand their whole frame to
 }
 
 // writeGuardFindings: for every branch of an encoder primitive that depends on the buffer, the side
@@ -1952,6 +2069,20 @@ func checkFrameArithmetic(p *Prog, c *Check) {
 	c.Measured["boundary_targeted_states"] = ntargeted
 }
 
+// allEvaluatedOK: the helper's finding concerns the packet encoders that hand it their whole frame: all of them
+// were discharged by the evaluation rule.
+func allEvaluatedOK(c *Check, rule string, fns []*ssa.Function) bool {
+	if len(fns) == 0 {
+		return false
+	}
+	for _, f := range fns {
+		if !evaluatedOK(c, rule, f) {
+			return false
+		}
+	}
+	return true
+}
+
 // evaluatedOK: the evaluation rule `rule` was discharged for the packet type whose encoder is fn.
 func evaluatedOK(c *Check, rule string, fn *ssa.Function) bool {
 	if fn == nil || fn.Signature.Recv() == nil {
@@ -2126,7 +2257,17 @@ func lengthPrefixFindings(p *Prog, topLevel map[*ssa.Function]bool) []guardFindi
 			if len(ems) > 1 && len(ems[1].call.Call.Args) > 0 {
 				what = describeVal(ems[1].call.Call.Args[0])
 			}
-			out = append(out, guardFinding{cons: cons, pos: pos, unk: true, top: fn, how: "the remaining length of this packet encoder (" + what + ") is not computed from dry runs of what is emitted after it inside the encoder: that it equals the bytes that follow is not decided for all packet states"})
+			var tops []*ssa.Function
+			for f, d := range delegates {
+				for d != nil {
+					if d == fn {
+						tops = append(tops, f)
+						break
+					}
+					d = delegates[d]
+				}
+			}
+			out = append(out, guardFinding{cons: cons, pos: pos, unk: true, top: fn, tops: tops, how: "the remaining length of this packet encoder (" + what + ") is not computed from dry runs of what is emitted after it inside the encoder: that it equals the bytes that follow is not decided for all packet states"})
 		}
 		if buf == nil || len(ems) == 0 {
 			continue
